@@ -34,7 +34,10 @@ def gen_tied(rng, i):
 def gen(rng, i):
     if i % 6 == 4:
         return gen_tied(rng, i)
-    mb, info = gm.gen_model(rng, n_subgraphs=1 if i % 5 else 2, alias_sig=0.0)
+    deep = {"n_ops": rng.randint(6, 12), "kinds": gm.WEIGHT_HEAVY} if i % 6 == 1 else {}   # many weight-bearing operators in a row
+    mb, info = gm.gen_model(rng, n_subgraphs=1 if i % 5 else 2, alias_sig=0.0, **deep)
+    if deep:
+        info["tags"].add("deep_weight_chain")
     data = gm.random_inputs(mb, rng, n=1)
     names = list(pl.UNIFORM)
     r = rng.random()
